@@ -76,6 +76,9 @@ def corpus():
         out.append("DEC " + xhex(buf))
         for clock in (OFFSET + 5000, U64 - 1):
             out.append(_rx(rng, buf, clock))
+    # wire CRC-16 of exactly 0x0000 (correct!): must be decoded as a value, not as the never-calculated placeholder
+    for b in genb.zero_crc_bundles()[:14]:
+        out.append("DEC " + xhex(genb.ref_bundle(b)[0]))
     # deep nesting: tags / arrays around the whole bundle and inside it
     base = genb.ref_bundle(genb.rnd_bundle(rng, nblocks=1, crc_kind=1))[0]
     for k in (120, 126, 127, 128, 129, 200, 5000):
@@ -105,7 +108,8 @@ def cases(rng, tier):
                 for c in range(0, 256):
                     out.append("DEC " + xhex(bytes([a, b, c])))
     nm = 12000 if tier == "quick" else 1500000
-    seeds = [genb.ref_bundle(genb.rnd_bundle(rng, nblocks=rng.randrange(0, 5)))[0] for _ in range(400)]
+    seeds = [genb.ref_bundle(genb.reorder(rng, genb.rnd_bundle(rng, nblocks=rng.randrange(0, 5)), free=True))[0] for _ in range(400)]
+    seeds += [genb.ref_bundle(b)[0] for b in genb.zero_crc_bundles()]
     seeds += _targeted(rng)
     for _ in range(nm // 40):
         nb = rng.randrange(0, 4)
